@@ -94,6 +94,11 @@ func (app *App) checkRecovery() {
 		return
 	}
 
+	if sstatus == nil {
+		app.logger.Info().Msg("recovery: local node has no replication configured, waiting for manager to turn us to a new master")
+		return
+	}
+
 	app.logger.Info().Msgf("recovery: master %s has GTIDs %s", master, mgtids)
 	app.logger.Info().Msgf("recovery: local node %s has GTIDs %s", localNode.Host(), sstatus.GetExecutedGtidSet())
 
